@@ -37,27 +37,24 @@ func init() {
 	addControl(Control{Prop: "C12", Name: "vault-withdraw-drop-owner-check", File: "x/vault/keeper/msg_server.go",
 		Find:    "\tif userVault.Owner != msg.From {\n\t\treturn nil, types.ErrVaultAccessUnauthorised\n\t}\n\n\tif appMapping.Id != userVault.AppId {\n\t\treturn nil, types.ErrorInvalidAppMappingData\n\t}\n\tif extendedPairVault.Id != userVault.ExtendedPairVaultID {\n\t\treturn nil, types.ErrorInvalidExtendedPairMappingData\n\t}\n\n\ttotalDebt := userVault.AmountOut.Add(userVault.InterestAccumulated)\n\terr1 := k.rewards.CalculateVaultInterest(ctx, appMapping.Id, msg.ExtendedPairVaultId, msg.UserVaultId, totalDebt, userVault.BlockHeight, userVault.BlockTime.Unix())\n\tif err1 != nil {\n\t\treturn nil, err1\n\t}\n\tuserVault, found1 := k.GetVault(ctx, msg.UserVaultId)\n\tif !found1 {\n\t\treturn nil, types.ErrorVaultDoesNotExist\n\t}\n\tuserVault.AmountIn = userVault.AmountIn.Add(msg.Amount)",
 		Replace: "\tif appMapping.Id != userVault.AppId {\n\t\treturn nil, types.ErrorInvalidAppMappingData\n\t}\n\tif extendedPairVault.Id != userVault.ExtendedPairVaultID {\n\t\treturn nil, types.ErrorInvalidExtendedPairMappingData\n\t}\n\n\ttotalDebt := userVault.AmountOut.Add(userVault.InterestAccumulated)\n\terr1 := k.rewards.CalculateVaultInterest(ctx, appMapping.Id, msg.ExtendedPairVaultId, msg.UserVaultId, totalDebt, userVault.BlockHeight, userVault.BlockTime.Unix())\n\tif err1 != nil {\n\t\treturn nil, err1\n\t}\n\tuserVault, found1 := k.GetVault(ctx, msg.UserVaultId)\n\tif !found1 {\n\t\treturn nil, types.ErrorVaultDoesNotExist\n\t}\n\tuserVault.AmountIn = userVault.AmountIn.Add(msg.Amount)",
-		Rule: "R12.1", Contains: "MsgDeposit"})
+		Rule:    "R12.1", Contains: "MsgDeposit"})
 	addControl(Control{Prop: "C12", Name: "lend-closeborrow-self-comparison", File: "x/lend/keeper/keeper.go",
-		Find:    "\tif lendPos.Owner != borrowerAddr {\n\t\treturn types.ErrLendAccessUnauthorized\n\t}\n\n\tassetInPool, found := k.GetPool(ctx, pair.AssetOutPoolID)",
-		Replace: "\tif lendPos.Owner != lendPos.Owner {\n\t\treturn types.ErrLendAccessUnauthorized\n\t}\n\n\tassetInPool, found := k.GetPool(ctx, pair.AssetOutPoolID)",
-		Rule:    "R12.1", Contains: "LendAsset"})
+		Find: "\tif lendPos.Owner != borrowerAddr {", Replace: "\tif lendPos.Owner != lendPos.Owner {", Nth: 3,
+		Rule: "R12.1", Contains: "LendAsset"})
 	addControl(Control{Prop: "C12", Name: "wasm-drop-testnet-branch", File: "app/wasm/message_plugin.go",
-		Find:    "\tif ctx.ChainID() == \"comdex-1\" {\n\t\tif contractAddr.String() != comdex1[1] {\n\t\t\treturn nil, nil, sdkerrors.ErrInvalidAddress\n\t\t}\n\t} else if ctx.ChainID() == \"comdex-test3\" {\n\t\tif contractAddr.String() != testnet3[1] {\n\t\t\treturn nil, nil, sdkerrors.ErrInvalidAddress\n\t\t}\n\t}\n\terr := AddAuctionParams(",
-		Replace: "\tif ctx.ChainID() == \"comdex-1\" {\n\t\tif contractAddr.String() != comdex1[1] {\n\t\t\treturn nil, nil, sdkerrors.ErrInvalidAddress\n\t\t}\n\t}\n\terr := AddAuctionParams(",
+		Find:    "\t} else if ctx.ChainID() == \"comdex-test3\" {\n\t\tif contractAddr.String() != testnet3[0] {\n\t\t\treturn nil, nil, sdkerrors.ErrInvalidAddress\n\t\t}\n\t}\n\terr := MsgAddAuctionParams(",
+		Replace: "\t}\n\terr := MsgAddAuctionParams(",
 		Rule:    "R12.2", Contains: "AddAuctionParams on comdex-test3"})
 	addControl(Control{Prop: "C12", Name: "killswitch-inverted-admin", File: "x/esm/keeper/msg_server.go",
 		Find: "if !m.keeper.Admin(ctx, msg.From) {", Replace: "if m.keeper.Admin(ctx, msg.From) {", Rule: "R12.3", Contains: "SetKillSwitchData"})
 	addControl(Control{Prop: "C12", Name: "locker-withdraw-eq-inverted", File: "x/locker/keeper/msg_server.go",
-		Find:    "\tif msg.Depositor != lockerData.Depositor {\n\t\treturn nil, types.ErrorUnauthorized\n\t}\n\n\tif lookupTableData.LockerIds == nil {",
-		Replace: "\tif msg.Depositor == lockerData.Depositor {\n\t\treturn nil, types.ErrorUnauthorized\n\t}\n\n\tif lookupTableData.LockerIds == nil {",
-		Rule:    "R12.1", Contains: "Locker"})
+		Find: "\tif msg.Depositor != lockerData.Depositor {", Replace: "\tif msg.Depositor == lockerData.Depositor {", Nth: 2,
+		Rule: "R12.1", Contains: "Locker"})
 
 	// ---- C14 ----
 	addControl(Control{Prop: "C14", Name: "locker-deposit-drop-breaker", File: "x/locker/keeper/msg_server.go",
-		Find:    "\tklwsParams, _ := k.esm.GetKillSwitchData(ctx, msg.AppId)\n\tif klwsParams.BreakerEnable {\n\t\treturn nil, esmtypes.ErrCircuitBreakerEnabled\n\t}\n\tdepositor, err := sdk.AccAddressFromBech32(msg.Depositor)\n\tif err != nil {\n\t\treturn nil, err\n\t}\n\n\tasset, found := k.asset.GetAsset(ctx, msg.AssetId)\n\tif !found {\n\t\treturn nil, types.ErrorAssetDoesNotExist\n\t}\n\tappMapping, found := k.asset.GetApp(ctx, msg.AppId)\n\tif !found {\n\t\treturn nil, types.ErrorAppMappingDoesNotExist\n\t}\n\n\tlockerData, found := k.GetLocker(ctx, msg.LockerId)",
-		Replace: "\tdepositor, err := sdk.AccAddressFromBech32(msg.Depositor)\n\tif err != nil {\n\t\treturn nil, err\n\t}\n\n\tasset, found := k.asset.GetAsset(ctx, msg.AssetId)\n\tif !found {\n\t\treturn nil, types.ErrorAssetDoesNotExist\n\t}\n\tappMapping, found := k.asset.GetApp(ctx, msg.AppId)\n\tif !found {\n\t\treturn nil, types.ErrorAppMappingDoesNotExist\n\t}\n\n\tlockerData, found := k.GetLocker(ctx, msg.LockerId)",
-		Rule:    "R14.1", Contains: "MsgDepositAsset"})
+		Find:    "\tklwsParams, _ := k.esm.GetKillSwitchData(ctx, msg.AppId)\n\tif klwsParams.BreakerEnable {\n\t\treturn nil, esmtypes.ErrCircuitBreakerEnabled\n\t}\n",
+		Replace: "", Nth: 2, Rule: "R14.1", Contains: "MsgDepositAsset"})
 	addControl(Control{Prop: "C14", Name: "v2-liquidate-vault-breaker-inverted", File: "x/liquidationsV2/keeper/liquidate.go",
 		Find:    "if (found && esmStatus.Status) || klwsParams.BreakerEnable {",
 		Replace: "if (found && esmStatus.Status) || !klwsParams.BreakerEnable {", Rule: "R14.2", Contains: "LiquidateIndividualVault"})
@@ -95,10 +92,93 @@ func init() {
 	addControl(Control{Prop: "C16", Name: "map-range-last-writer", File: "x/liquidity/keeper/pool.go",
 		Find:    "\t\tfor _, pLiquidity := range poolLiquidityMap {\n\t\t\ttotalLiquidity = totalLiquidity.Add(pLiquidity)\n\t\t}",
 		Replace: "\t\tfor _, pLiquidity := range poolLiquidityMap {\n\t\t\ttotalLiquidity = pLiquidity\n\t\t}", Rule: "R16.1", Contains: "TransferFundsForSwapFeeDistribution"})
-	addControl(Control{Prop: "C16", Name: "time-now-in-keeper", File: "x/locker/keeper/msg_server.go",
-		Find:    "\t\t\tCreatedAt:          ctx.BlockTime(),",
-		Replace: "\t\t\tCreatedAt:          time.Now(),", Rule: "R16.2", Contains: "wall-clock"})
+	addControl(Control{Prop: "C16", Name: "time-now-in-keeper", File: "x/auction/keeper/surplus.go",
+		Find: "auction.BidEndTime = ctx.BlockTime().Add(", Replace: "auction.BidEndTime = time.Now().Add(",
+		Rule: "R16.2", Contains: "wall-clock"})
 	addControl(Control{Prop: "C16", Name: "existing-commutative-range-negative", File: "x/liquidity/amm/match.go",
 		Find:    "\t\tquoteCoinDiff = quoteCoinDiff.Add(FillOrder(order, matchedAmt, price))",
 		Replace: "\t\tdiff := FillOrder(order, matchedAmt, price)\n\t\tquoteCoinDiff = quoteCoinDiff.Add(diff)", Negative: true})
+
+	// ---- C01 ----
+	addControl(Control{Prop: "C01", Name: "close-drop-counter-decrement", File: "x/vault/keeper/msg_server.go",
+		Find: "\tlength := k.GetLengthOfVault(ctx)\n\tk.SetLengthOfVault(ctx, length-1)\n", Replace: "", Rule: "R01.1", Contains: "MsgClose"})
+	addControl(Control{Prop: "C01", Name: "withdraw-totals-direction-flipped", File: "x/vault/keeper/msg_server.go",
+		Find: "k.UpdateCollateralLockedAmountLockerMapping(ctx, appExtendedPairVaultData.AppId, appExtendedPairVaultData.ExtendedPairId, msg.Amount, false)", Replace: "k.UpdateCollateralLockedAmountLockerMapping(ctx, appExtendedPairVaultData.AppId, appExtendedPairVaultData.ExtendedPairId, msg.Amount, true)", Nth: 1,
+		Rule: "R01.2", Contains: "MsgWithdraw"})
+	addControl(Control{Prop: "C01", Name: "deposit-drop-reload", File: "x/vault/keeper/msg_server.go",
+		Find:    "\tuserVault, found1 := k.GetVault(ctx, msg.UserVaultId)\n\tif !found1 {\n\t\treturn nil, types.ErrorVaultDoesNotExist\n\t}\n\tuserVault.AmountIn = userVault.AmountIn.Add(msg.Amount)",
+		Replace: "\tuserVault.AmountIn = userVault.AmountIn.Add(msg.Amount)", Rule: "R01.3", Contains: "MsgDeposit"})
+	// ---- C02 ----
+	addControl(Control{Prop: "C02", Name: "draw-user-gets-full-amount-in-fee-branch", File: "x/vault/keeper/msg_server.go",
+		Find: "\t\tamountToUser := msg.Amount.Sub(collectorShare)", Replace: "\t\tamountToUser := msg.Amount.Add(collectorShare.Sub(collectorShare))", Rule: "R02.1", Contains: "MsgDraw"})
+	addControl(Control{Prop: "C02", Name: "mint-added-to-close", File: "x/vault/keeper/vault.go",
+		Find: "func (k Keeper) DeleteVault(ctx sdk.Context, id uint64) {\n", Replace: "func (k Keeper) DeleteVault(ctx sdk.Context, id uint64) {\n\t_ = k.bank.MintCoins(ctx, types.ModuleName, sdk.NewCoins())\n", Rule: "R02.3", Contains: "DeleteVault"})
+	// ---- C04 ----
+	addControl(Control{Prop: "C04", Name: "deposit-drop-escrow-send", File: "x/liquidity/keeper/pool.go",
+		Find: "\tif err := k.bankKeeper.SendCoins(ctx, msg.GetDepositor(), types.GlobalEscrowAddress, msg.DepositCoins); err != nil {\n\t\treturn types.DepositRequest{}, err\n\t}\n", Replace: "", Rule: "R04.1", Contains: "Deposit"})
+	addControl(Control{Prop: "C04", Name: "withdraw-drop-disable", File: "x/liquidity/keeper/pool.go",
+		Find: "\tif req.PoolCoin.Amount.Equal(ps) {\n\t\tk.MarkPoolAsDisabled(ctx, pool)\n\t}\n", Replace: "", Rule: "R04.4", Contains: "disable on zero supply"})
+	addControl(Control{Prop: "C04", Name: "finish-deposit-drop-guard", File: "x/liquidity/keeper/pool.go",
+		Find: "\tif req.Status != types.RequestStatusNotExecuted { // sanity check\n\t\treturn nil\n\t}\n\n\trefundingCoins := req.DepositCoins.Sub(req.AcceptedCoins...)", Replace: "\trefundingCoins := req.DepositCoins.Sub(req.AcceptedCoins...)", Rule: "R04.2", Contains: "FinishDepositRequest"})
+	// ---- C05 ----
+	addControl(Control{Prop: "C05", Name: "buyer-pays-truncated", File: "x/liquidity/amm/match.go",
+		Find: "paid = price.MulInt(amt).Ceil().TruncateInt()", Replace: "paid = price.MulInt(amt).TruncateInt()", Rule: "R05.1", Contains: "SetPaidOfferCoinAmount"})
+	addControl(Control{Prop: "C05", Name: "seller-receives-ceil", File: "x/liquidity/amm/match.go",
+		Find: "received = price.MulInt(amt).TruncateInt()", Replace: "received = price.MulInt(amt).Ceil().TruncateInt()", Rule: "R05.1", Contains: "SetReceivedDemandCoinAmount"})
+	addControl(Control{Prop: "C05", Name: "overfill-guard-dropped", File: "x/liquidity/amm/match.go",
+		Find: "\tif amt.GT(matchableAmt) {\n\t\tpanic(fmt.Errorf(\"cannot match more than open amount; %s > %s\", amt, matchableAmt))\n\t}\n", Replace: "\t_ = matchableAmt\n\t_ = fmt.Sprint()\n", Rule: "R05.2", Contains: "FillOrder"})
+	// ---- C06 ----
+	addControl(Control{Prop: "C06", Name: "deposit-accepted-truncated", File: "x/liquidity/amm/pool.go",
+		Find: "ax = rx.Mul(mintProportion).Ceil().TruncateInt()", Replace: "ax = rx.Mul(mintProportion).TruncateInt()", Rule: "R06.1", Contains: "result ax"})
+	addControl(Control{Prop: "C06", Name: "withdraw-last-share-dropped", File: "x/liquidity/amm/pool.go",
+		Find: "\tif pc.Equal(ps) {\n\t\t// Redeeming the last pool coin - give all remaining rx and ry.\n\t\tx = rx\n\t\ty = ry\n\t\treturn\n\t}\n", Replace: "", Rule: "R06.2", Contains: "last share"})
+	// ---- C07 ----
+	addControl(Control{Prop: "C07", Name: "finishorder-drop-refund", File: "x/liquidity/keeper/swap.go",
+		Find: "\t\tif err := k.bankKeeper.SendCoins(ctx, pair.GetEscrowAddress(), order.GetOrderer(), sdk.NewCoins(refundCoin)); err != nil {\n\t\t\treturn err\n\t\t}\n", Replace: "\t\t_ = refundCoin\n", Rule: "R07.2", Contains: "FinishOrder"})
+	addControl(Control{Prop: "C07", Name: "cancel-extra-rejection", File: "x/liquidity/keeper/swap.go",
+		Find: "\tpair, _ := k.GetPair(ctx, msg.AppId, msg.PairId)\n\tif order.BatchId == pair.CurrentBatchId {", Replace: "\tif order.OpenAmount.IsZero() {\n\t\treturn types.Order{}, types.ErrAlreadyCanceled\n\t}\n\tpair, _ := k.GetPair(ctx, msg.AppId, msg.PairId)\n\tif order.BatchId == pair.CurrentBatchId {", Rule: "R07.5", Contains: "rejection"})
+	addControl(Control{Prop: "C07", Name: "getorder-args-reswapped", File: "x/liquidity/keeper/swap.go",
+		Find: "order, found := k.GetOrder(ctx, appID, pair.Id, orderID)", Replace: "order, found := k.GetOrder(ctx, pair.Id, appID, orderID)", Rule: "R07.6", Contains: "cancelMMOrder"})
+	// ---- C08 ----
+	addControl(Control{Prop: "C08", Name: "draw-drop-ltv-check", File: "x/lend/keeper/keeper.go",
+		Find: "\terr = k.VerifyCollateralizationRatio(ctx, borrowPos.AmountIn.Amount, assetIn, borrowPos.AmountOut.Amount.Add(borrowPos.InterestAccumulated.TruncateInt()).Add(amount.Amount), assetOut, assetRatesStatsLtv)\n\tif err != nil {\n\t\treturn err\n\t}\n", Replace: "\t_ = assetRatesStatsLtv\n\t_ = assetIn\n", Rule: "R08.1", Contains: "DrawAsset"})
+	addControl(Control{Prop: "C08", Name: "ratio-GT-to-GTE-stricter", File: "x/lend/keeper/rates.go",
+		Find: "if collateralizationRatio.GT(liquidationThreshold) {", Replace: "if collateralizationRatio.GTE(liquidationThreshold) {", Negative: true})
+	addControl(Control{Prop: "C08", Name: "ratio-GT-to-LT", File: "x/lend/keeper/rates.go",
+		Find: "if collateralizationRatio.GT(liquidationThreshold) {", Replace: "if collateralizationRatio.LT(liquidationThreshold) {", Rule: "R08.0", Contains: "VerifyCollateralizationRatio"})
+	// ---- C09 ----
+	addControl(Control{Prop: "C09", Name: "v2-vault-LT-to-LTE", File: "x/liquidationsV2/keeper/liquidate.go",
+		Find: "\tif collateralizationRatio.LT(liqRatio) {", Replace: "\tif collateralizationRatio.LTE(liqRatio) {", Rule: "R09.1", Contains: "LiquidateIndividualVault"})
+	addControl(Control{Prop: "C09", Name: "v2-borrow-sweep-drop-key", File: "x/liquidationsV2/keeper/liquidate.go",
+		Find: "\tliquidationOffsetHolder.AppId = offsetCounterId\n\tk.SetLiquidationOffsetHolder(ctx, types.VaultLiquidationsOffsetPrefix, liquidationOffsetHolder)\n\n\treturn nil\n}\n\nfunc (k Keeper) LiquidateIndividualBorrow(", Replace: "\tk.SetLiquidationOffsetHolder(ctx, types.VaultLiquidationsOffsetPrefix, liquidationOffsetHolder)\n\n\treturn nil\n}\n\nfunc (k Keeper) LiquidateIndividualBorrow(", Rule: "R09.3", Contains: "LiquidateBorrows offset key"})
+	// ---- C10 ----
+	addControl(Control{Prop: "C10", Name: "v1-close-drop-netfee", File: "x/auction/keeper/dutch.go",
+		Find: "\terr = k.collector.SetNetFeeCollectedData(ctx, dutchAuction.AppId, dutchAuction.AssetInId, penaltyCoin.Amount)\n\tif err != nil {\n\t\treturn err\n\t}\n", Replace: "", Nth: 1, Rule: "R10.3", Contains: "net-fee increase"})
+	// ---- C11 ----
+	addControl(Control{Prop: "C11", Name: "surplus-refund-to-new-bidder", File: "x/auction/keeper/surplus.go",
+		Find: "err = k.bank.SendCoinsFromModuleToAccount(ctx, auctiontypes.ModuleName, auction.Bidder, sdk.NewCoins(auction.Bid))", Replace: "err = k.bank.SendCoinsFromModuleToAccount(ctx, auctiontypes.ModuleName, bidder, sdk.NewCoins(auction.Bid))", Rule: "R11.2", Contains: "PlaceSurplusAuctionBid"})
+	addControl(Control{Prop: "C11", Name: "surplus-bidfactor-LT-to-LTE-stricter", File: "x/auction/keeper/surplus.go",
+		Find: "if bid.Amount.LT(minBidAmount) {", Replace: "if bid.Amount.LTE(minBidAmount) {", Negative: true})
+	addControl(Control{Prop: "C11", Name: "withdraw-limit-drop-bound", File: "x/auctionsV2/keeper/bid.go",
+		Find: "\tif amount.Amount.GT(userLimitBid.DebtToken.Amount) {\n\t\treturn types.ErrorMaxBidAmount\n\t}\n", Replace: "", Rule: "R11.4", Contains: "requested amount"})
+	// ---- C13 ----
+	addControl(Control{Prop: "C13", Name: "locker-withdraw-drop-total-update", File: "x/locker/keeper/msg_server.go",
+		Find: "\tk.UpdateAmountLockerMapping(ctx, lookupTableData.AppId, asset.Id, msg.Amount, false)\n", Replace: "", Rule: "R13.1", Contains: "MsgWithdrawAsset"})
+	addControl(Control{Prop: "C13", Name: "savings-drop-decrease", File: "x/collector/keeper/collector.go",
+		Find: "\t\t\t\terr = k.DecreaseNetFeeCollectedData(ctx, appID, lockerData.AssetDepositId, newReward)\n\t\t\t\tif err != nil {\n\t\t\t\t\tcontinue\n\t\t\t\t}\n", Replace: "", Rule: "R13.2", Contains: "LockerIterateRewards"})
+	// ---- C17 ----
+	addControl(Control{Prop: "C17", Name: "activate-on-append-unconditionally", File: "x/market/keeper/oracle.go",
+		Find: "\t\t\t\ttwa.PriceValue = append(twa.PriceValue, rate)\n\t\t\t\ttwa.CurrentIndex = twa.CurrentIndex + 1\n", Replace: "\t\t\t\ttwa.PriceValue = append(twa.PriceValue, rate)\n\t\t\t\ttwa.IsPriceActive = true\n\t\t\t\ttwa.CurrentIndex = twa.CurrentIndex + 1\n", Rule: "R17.2", Contains: "activation"})
+	addControl(Control{Prop: "C17", Name: "latest-price-without-active", File: "x/market/keeper/oracle.go",
+		Find: "\tif found && twa.IsPriceActive {\n\t\treturn twa.PriceValue[twa.CurrentIndex], nil", Replace: "\tif found {\n\t\treturn twa.PriceValue[twa.CurrentIndex], nil", Rule: "R17.1", Contains: "GetLatestPrice"})
+	// ---- C19 ----
+	addControl(Control{Prop: "C19", Name: "drop-total-cap", File: "x/rewards/keeper/distribution.go",
+		Find: "\tif totalDistributionCoinsCalculated.Amount.GT(coinToDistribute.Amount) {\n\t\treturn sdk.NewCoin(coinToDistribute.Denom, sdk.NewInt(0)), types.ErrInvalidCalculatedAMount\n\t}\n", Replace: "", Rule: "R19.1", Contains: "doDistributionSends"})
+	addControl(Control{Prop: "C19", Name: "drop-availability-check", File: "x/rewards/keeper/gauge.go",
+		Find: "\t\t\tif availableDeposits.LT(sdk.NewIntFromUint64(amountToDistribute)) {\n\t\t\t\tcontinue\n\t\t\t}\n", Replace: "\t\t\t_ = availableDeposits\n", Rule: "R19.2", Contains: "cap"})
+	// ---- C20 ----
+	addControl(Control{Prop: "C20", Name: "collector-reader-without-unmarshal", File: "x/collector/keeper/collector.go",
+		Find: "\t\tvar fee types.AppAssetIdToFeeCollectedData\n\t\tk.cdc.MustUnmarshal(iter.Value(), &fee)\n", Replace: "\t\tvar fee types.AppAssetIdToFeeCollectedData\n", Rule: "R20.3", Contains: "GetAllNetFeeCollectedData"})
+	addControl(Control{Prop: "C20", Name: "auctionsv2-ignore-counter", File: "x/auctionsV2/genesis.go",
+		Find: "k.SetAuctionID(ctx, genState.AuctionId)", Replace: "k.SetAuctionID(ctx, 0)", Rule: "R20.2", Contains: "GenesisState.AuctionId"})
 }
